@@ -7,9 +7,10 @@ VERIF = os.path.dirname(os.path.dirname(os.path.abspath(__file__)))
 SCRATCH = os.environ.get('VERIF_SCRATCH', '/var/tmp/nervus-verif')
 
 
-def build(repo_root):
-    src = os.path.join(VERIF, 'replay-runner')
-    dst = os.path.join(SCRATCH, 'replay-runner')
+def build(repo_root, runner='replay-runner'):
+    """runner: 'replay-runner' (storage/api crates) or 'replay-runner-q' (query layer through nervusdb::Db)"""
+    src = os.path.join(VERIF, runner)
+    dst = os.path.join(SCRATCH, runner)
     os.makedirs(os.path.join(dst, 'src'), exist_ok=True)
     shutil.copy(os.path.join(src, 'src', 'main.rs'), os.path.join(dst, 'src', 'main.rs'))
     toml = open(os.path.join(src, 'Cargo.toml')).read().replace('/repo/', repo_root.rstrip('/') + '/')
@@ -18,10 +19,11 @@ def build(repo_root):
     if os.path.exists(lock):
         shutil.copy(lock, os.path.join(dst, 'Cargo.lock'))
     env = dict(os.environ, CARGO_NET_OFFLINE='true', CARGO_TARGET_DIR=os.path.join(SCRATCH, 'target-replay'))
+    env.setdefault('CARGO_BUILD_JOBS', '8')
     p = subprocess.run(['cargo', 'build', '--offline'], cwd=dst, env=env, capture_output=True, text=True, timeout=1800)
     if p.returncode != 0:
         return None, (p.stderr or '')[-1500:]
-    return os.path.join(SCRATCH, 'target-replay', 'debug', 'replay-runner'), ''
+    return os.path.join(SCRATCH, 'target-replay', 'debug', runner), ''
 
 
 def run(binary, scenario, timeout=600):
